@@ -1,6 +1,6 @@
 (* C12 - quarter-turn rotations move values, vectors, validity and geometry together.
    Statements only; proofs in proofs/C12_rot.v, C12_cov.v, C12_field.v, C12_inplace.v. *)
-From DF Require Import Prelude Constants_gen FieldK NDArray Region Mesh Rotate90 C12_rot C12_cov C12_field C12_inplace.
+From DF Require Import Prelude Constants_gen FieldK NDArray Region Mesh Rotate90 C12_rot C12_cov C12_field C12_inplace C12_compose C12_compose2 C12_link C12_examples.
 Open Scope Q_scope.
 
 (* --- covariance, geometry: for every cell i of a well-formed mesh, the centre of cell
@@ -151,3 +151,150 @@ Theorem C12_inplace_eq_copy_region : forall r a b k ref, wf_region r ->
   region_rotate90 true r a b k ref = region_rotate90 false r a b k ref.
 Proof. exact region_inplace_eq_copy. Qed.
 Print Assumptions C12_inplace_eq_copy_region.
+
+(* ====== phase 2: composition, reverse turn, four turns, link to C01 ====== *)
+
+(* the exact quarter-turn matrix of k1 + k2 is the product of the matrices of k1 and k2 *)
+Theorem C12_turn_sum : forall k1 k2, zturn (k1 + k2) = zmul (zturn k1) (zturn k2).
+Proof. exact zturn_add. Qed.
+Print Assumptions C12_turn_sum.
+
+(* a rotated well-formed region is well-formed (pmin < pmax, lengths, distinct dims) *)
+Theorem C12_region_wellformed : forall ip r a b k ref r',
+  wf_region r -> region_rotate90 ip r a b k ref = OK r' -> wf_region r'.
+Proof. exact region_rotate90_wf. Qed.
+Print Assumptions C12_region_wellformed.
+
+(* corners of the rotated region, axis by axis, for every k (the box is the image of the box) *)
+Theorem C12_region_box : forall ip r a b k ref r' R i1 i2,
+  wf_region r -> region_rotate90 ip r a b k ref = OK r' ->
+  rot_reference r ref = OK R -> dim2index r a = OK i1 -> dim2index r b = OK i2 ->
+  i1 <> i2 /\ (i1 < length (pmin r))%nat /\ (i2 < length (pmin r))%nat /\
+  length (pmin r') = length (pmin r) /\ length (pmax r') = length (pmin r) /\
+  dims r' = dims r /\ units r' = rot_units k i1 i2 (units r) /\ tf r' = tf r /\
+  forall j, (j < length (pmin r))%nat ->
+    nth j (pmin r') 0 == fst (rbox k i1 i2 j R (pmin r) (pmax r)) /\
+    nth j (pmax r') 0 == snd (rbox k i1 i2 j R (pmin r) (pmax r)).
+Proof. exact region_rot_desc. Qed.
+Print Assumptions C12_region_box.
+
+(* k1 then k2 is k1 + k2 (same reference argument; default reference: the centre is a fixed point);
+   any mix of copying and in-place forms *)
+Theorem C12_compose_region : forall ip ip' ip'' r a b k1 k2 ref r1 r2 r3,
+  wf_region r -> region_rotate90 ip r a b k1 ref = OK r1 -> region_rotate90 ip' r1 a b k2 ref = OK r2 ->
+  region_rotate90 ip'' r a b (k1 + k2) ref = OK r3 ->
+  (forall j, (j < length (pmin r))%nat ->
+     nth j (pmin r2) 0 == nth j (pmin r3) 0 /\ nth j (pmax r2) 0 == nth j (pmax r3) 0) /\
+  length (pmin r2) = length (pmin r3) /\ dims r2 = dims r3 /\ units r2 = units r3 /\ tf r2 = tf r3.
+Proof. exact region_compose. Qed.
+Print Assumptions C12_compose_region.
+
+(* a turn followed by its reverse is the identity *)
+Theorem C12_inverse_region : forall ip ip' r a b k ref r1 r2,
+  wf_region r -> region_rotate90 ip r a b k ref = OK r1 -> region_rotate90 ip' r1 a b (- k) ref = OK r2 ->
+  (forall j, (j < length (pmin r))%nat ->
+     nth j (pmin r2) 0 == nth j (pmin r) 0 /\ nth j (pmax r2) 0 == nth j (pmax r) 0) /\
+  length (pmin r2) = length (pmin r) /\ dims r2 = dims r /\ units r2 = units r /\ tf r2 = tf r.
+Proof. exact region_turn_reverse. Qed.
+Print Assumptions C12_inverse_region.
+
+(* four quarter turns are the identity *)
+Theorem C12_four_turns_region : forall ipa ipb ipc ipd r a b ref r1 r2 r3 r4,
+  wf_region r -> region_rotate90 ipa r a b 1 ref = OK r1 -> region_rotate90 ipb r1 a b 1 ref = OK r2 ->
+  region_rotate90 ipc r2 a b 1 ref = OK r3 -> region_rotate90 ipd r3 a b 1 ref = OK r4 ->
+  (forall j, (j < length (pmin r))%nat ->
+     nth j (pmin r4) 0 == nth j (pmin r) 0 /\ nth j (pmax r4) 0 == nth j (pmax r) 0) /\
+  length (pmin r4) = length (pmin r) /\ dims r4 = dims r /\ units r4 = units r /\ tf r4 = tf r.
+Proof. exact region_four_turns. Qed.
+Print Assumptions C12_four_turns_region.
+
+Example C12_compose_nonvacuous :
+  wf_region (reg m0) /\
+  exists r1 r2 r3 r4,
+    region_rotate90 false (reg m0) "x" "y" 1 None = OK r1 /\ region_rotate90 true r1 "x" "y" 1 None = OK r2 /\
+    region_rotate90 false r2 "x" "y" 1 None = OK r3 /\ region_rotate90 true r3 "x" "y" 1 None = OK r4 /\
+    (exists s, region_rotate90 true r1 "x" "y" (-1) None = OK s) /\
+    (exists s, region_rotate90 false (reg m0) "x" "y" (1 + 1) None = OK s).
+Proof. exact compose_instance. Qed.
+Print Assumptions C12_compose_nonvacuous.
+
+(* the default reference: a quarter turn about the centre keeps the centre, so the reference read
+   after the region was turned in place is == the one read before (mesh in-place path) *)
+Theorem C12_centre_fixed : forall ip r a b k r',
+  wf_region r -> region_rotate90 ip r a b k None = OK r' ->
+  forall j, (j < length (pmin r))%nat -> nth j (center r') 0 == nth j (center r) 0.
+Proof. exact center_fixed. Qed.
+Print Assumptions C12_centre_fixed.
+
+(* mesh level: cell counts and units compose by parity *)
+Theorem C12_compose_n : forall k1 k2 i1 i2 (ns : list Z),
+  i1 <> i2 -> (i1 < length ns)%nat -> (i2 < length ns)%nat ->
+  rot_n k2 i1 i2 (rot_n k1 i1 i2 ns) = rot_n (k1 + k2) i1 i2 ns.
+Proof. exact rot_n_add. Qed.
+Print Assumptions C12_compose_n.
+
+Theorem C12_compose_units : forall k1 k2 i1 i2 us,
+  i1 <> i2 -> (i1 < length us)%nat -> (i2 < length us)%nat ->
+  rot_units k2 i1 i2 (rot_units k1 i1 i2 us) = rot_units (k1 + k2) i1 i2 us.
+Proof. exact rot_units_add. Qed.
+Print Assumptions C12_compose_units.
+
+(* arrays (data and validity): rot90 by k1 then by k2 on the rotated shape is rot90 by k1 + k2 *)
+Theorem C12_compose_cells : forall (V : Type) (sh : list nat) (a b : nat) (k1 k2 : Z) (f : idx -> V) (i : idx),
+  a <> b -> (a < length i)%nat -> (b < length i)%nat -> length sh = length i ->
+  (nth a i 0 < nth a (rot90_shape sh a b (k1 + k2)) 0)%nat ->
+  (nth b i 0 < nth b (rot90_shape sh a b (k1 + k2)) 0)%nat ->
+  rot90 (rot90_shape sh a b k1) a b k2 (rot90 sh a b k1 f) i = rot90 sh a b (k1 + k2) f i.
+Proof. exact @rot90_compose. Qed.
+Print Assumptions C12_compose_cells.
+
+Theorem C12_inverse_cells : forall (V : Type) (sh : list nat) (a b : nat) (k : Z) (f : idx -> V) (i : idx),
+  a <> b -> (a < length i)%nat -> (b < length i)%nat -> length sh = length i ->
+  (nth a i 0 < nth a sh 0)%nat -> (nth b i 0 < nth b sh 0)%nat ->
+  rot90 (rot90_shape sh a b k) a b (- k) (rot90 sh a b k f) i = f i.
+Proof. exact @rot90_reverse. Qed.
+Print Assumptions C12_inverse_cells.
+
+Theorem C12_four_turns_cells : forall (V : Type) (sh : list nat) (a b : nat) (f : idx -> V) (i : idx),
+  a <> b -> (a < length i)%nat -> (b < length i)%nat -> length sh = length i ->
+  (nth a i 0 < nth a sh 0)%nat -> (nth b i 0 < nth b sh 0)%nat ->
+  let s1 := rot90_shape sh a b 1 in let s2 := rot90_shape s1 a b 1 in let s3 := rot90_shape s2 a b 1 in
+  rot90 s3 a b 1 (rot90 s2 a b 1 (rot90 s1 a b 1 (rot90 sh a b 1 f))) i = f i.
+Proof. exact @rot90_four_turns. Qed.
+Print Assumptions C12_four_turns_cells.
+
+(* vector components, for every field of values: turn k1 then k2 is turn k1 + k2; a net multiple
+   of four is the identity *)
+Theorem C12_compose_components : forall (K : FOps), FLaws K ->
+  forall k1 k2 v1 v2 (f : idx -> K) base comp, v1 <> v2 ->
+  rot_comp K (fst (kturn K k2)) (snd (kturn K k2)) v1 v2
+    (rot_comp K (fst (kturn K k1)) (snd (kturn K k1)) v1 v2 f) (base ++ [comp])
+  = rot_comp K (fst (kturn K (k1 + k2))) (snd (kturn K (k1 + k2))) v1 v2 f (base ++ [comp]).
+Proof. exact rot_comp_compose. Qed.
+Print Assumptions C12_compose_components.
+
+Theorem C12_identity_components : forall (K : FOps), FLaws K ->
+  forall k v1 v2 (f : idx -> K) base comp, (k mod 4 = 0)%Z -> v1 <> v2 ->
+  rot_comp K (fst (kturn K k)) (snd (kturn K k)) v1 v2 f (base ++ [comp]) = f (base ++ [comp]).
+Proof. exact rot_comp_zero. Qed.
+Print Assumptions C12_identity_components.
+
+(* the rotated mesh is well-formed, and (link to C01) its point2index at the centre of the target
+   cell - which is R + Q (centre i - R) - returns rot_index i *)
+Theorem C12_mesh_wellformed : forall ip m a b k ref m' (sh : list nat),
+  wf_mesh m -> n m = map Z.of_nat sh -> (forall j, (j < length sh)%nat -> (0 < nth j sh 0)%nat) ->
+  mesh_rotate90 ip m a b k ref = OK m' -> wf_mesh m'.
+Proof. exact mesh_rotate90_wf. Qed.
+Print Assumptions C12_mesh_wellformed.
+
+Theorem C12_covariance_point2index : forall ip m a b k ref m' R i1 i2 (sh : list nat) (i : idx),
+  wf_mesh m -> n m = map Z.of_nat sh ->
+  mesh_rotate90 ip m a b k ref = OK m' ->
+  rot_reference (reg m) ref = OK R -> dim2index (reg m) a = OK i1 -> dim2index (reg m) b = OK i2 ->
+  length i = length sh -> (forall j, (j < length sh)%nat -> (nth j i 0 < nth j sh 0)%nat) ->
+  let t := map Z.of_nat (rot_index sh i1 i2 k i) in
+  exists P, index2point m' t = OK P /\ point2index m' P = OK t /\ length P = length sh /\
+    forall j, (j < length sh)%nat ->
+      nth j P 0 == nth j (rot_pt (fst (qturn k)) (snd (qturn k)) i1 i2 R (centre m (map Z.of_nat i))) 0.
+Proof. exact point2index_covariant. Qed.
+Print Assumptions C12_covariance_point2index.
